@@ -132,6 +132,11 @@ fn square_planar(scanner: &mut Scanner) -> Result<Configuration, Error> {
 }
 
 fn trigonal_bipyramidal(scanner: &mut Scanner) -> Result<Configuration, Error> {
+    match scanner.peek() {
+        Some('1'..='9') => (),
+        _ => return Err(missing_character(scanner))
+    }
+
     Ok(match scanner.pop() {
         Some('1') => match scanner.peek() {
             Some('0'..='9') => match scanner.pop() {
@@ -169,6 +174,11 @@ fn trigonal_bipyramidal(scanner: &mut Scanner) -> Result<Configuration, Error> {
 }
 
 fn octahedral(scanner: &mut Scanner) -> Result<Configuration, Error> {
+    match scanner.peek() {
+        Some('1'..='9') => (),
+        _ => return Err(missing_character(scanner))
+    }
+
     Ok(match scanner.pop() {
         Some('1') => match scanner.peek() {
             Some('0'..='9') => match scanner.pop() {
